@@ -218,3 +218,6 @@ func Settle() {
 	}
 	time.Sleep(30 * time.Millisecond)
 }
+
+// Tag names the scenario a harness is in; the engine appends it to the labels of panics, deadlocks and data races.
+func Tag(s string) {}
